@@ -190,6 +190,8 @@ func rangeInstCase(c *Case, lean *LeanDriver) Verdict {
 
 func procsCase(c *Case, lean *LeanDriver) Verdict {
 	v := baseVerdict(c, "procs")
+	c = c.clone()
+	c.Opt = "default"
 	base := c.clone()
 	base.Procs = 2
 	ref := execThanos(base, NewMemStorage(c.Data()))
@@ -232,7 +234,7 @@ func procsCase(c *Case, lean *LeanDriver) Verdict {
 				if n%7 == 0 {
 					runtime.Gosched()
 				}
-				if n%53 == 0 {
+				if n%53 == 0 || kind == EvIterator {
 					time.Sleep(50 * time.Microsecond)
 				}
 				return Action{}
